@@ -74,6 +74,14 @@ class WireManagerBase(abc.ABC):
             wire_descriptions = [str(wire) for wire in self.wires]
             raise InconsistentGradingsError(f"Inconsistent counts on wires {wire_descriptions} ({counts})")
 
+        # the same edge must also carry the same count in every block that shares it
+        for wire in self.wires:
+            for coincident in wire.coincidents:
+                if coincident.grading.count != wire.grading.count:
+                    raise InconsistentGradingsError(
+                        f"Inconsistent counts on shared edge {wire}: {wire.grading.count} and {coincident.grading.count}"
+                    )
+
 
 class WireChopManager(WireManagerBase):
     """Responsible for conversion of user-specified Chops
